@@ -61,6 +61,17 @@ Proof.
   apply reachable_inv; auto.
 Qed.
 
+(* the same with "the case has not halted" instead of "the task is at rest" *)
+Theorem idle_converged_all : forall ops e,
+  wf_ops p ops -> let s := run_fixed p ops in
+  ready s = [] -> halted s = false -> effb p e = true ->
+  ealive (getn s e) = true -> emissed (getn s e) = false ->
+  EffectConverged s e.
+Proof.
+  intros ops e Hw s Hr Hh He Ha Hm. apply idle_converged; auto.
+  destruct (reachable_at_rest p wfp pure ops Hw) as [H|H]; [unfold s in Hh; congruence|auto].
+Qed.
+
 (* ---------------------------------------------------------------- C09: what the ghost means *)
 (* a cause is recorded for k exactly when k tracked the written / changed node in its last run *)
 Lemma cause_only_if_tracked j s k :
